@@ -428,7 +428,8 @@ ApplyStep(s) ==
 RECURSIVE CaseSelect(_, _)
 CaseSelect(key, cls) ==   \* index of the first clause one of whose data is eqv? to the key, or 0
   IF cls = <<>> THEN 0
-  ELSE IF \E i \in DOMAIN cls[1].ds : Eqv(key, cls[1].ds[i]) THEN 1
+  \* (a datum that is a pair or a vector is a constant of the program text: no computed key is eqv? to it)
+  ELSE IF \E i \in DOMAIN cls[1].ds : cls[1].ds[i].t \notin {"pair", "vlit", "vec"} /\ Eqv(key, cls[1].ds[i]) THEN 1
   ELSE LET r == CaseSelect(key, Tail(cls)) IN IF r = 0 THEN 0 ELSE r + 1
 
 ReturnStep(s) ==
